@@ -28,3 +28,69 @@ package amm
 //@   ensures #c06-prorata-x: pc < ps ==> x * ps * ONE <= rx * pc * (ONE - feeRate)
 //@   ensures #c06-prorata-y: pc < ps ==> y * ps * ONE <= ry * pc * (ONE - feeRate)
 //@   ensures #c06-le-reserve: x <= rx && y <= ry
+
+// Fill layer of batch matching (C05).
+// MatchableAmount: never more than the open amount; a positive matchable amount is always worth at least one quote unit
+// at the price (so a matched order receives a strictly positive amount on both sides of the book and both sides stay in
+// step); for a buy order the quote needed for it (rounded up) fits into the unspent offer coin.
+//@ func MatchableAmount
+//@   property C05
+//@   requires #order-shape: order.GetOpenAmount() >= 0 && order.GetOfferCoinAmount() >= order.GetPaidOfferCoinAmount() && order.GetPaidOfferCoinAmount() >= 0 && price > 0 && (order.GetDirection() == Buy || order.GetDirection() == Sell)
+//@   ensures #c05-within-open: 0 <= result && result <= order.GetOpenAmount()
+//@   ensures #c05-worth-a-quote-unit: result > 0 ==> trunc(price * result) >= 1
+//@   ensures #c05-buy-fits-offer: order.GetDirection() == Buy ==> trunc(decCeil(price * result)) <= order.GetOfferCoinAmount() - order.GetPaidOfferCoinAmount()
+
+// FillOrder: fills by amt at price, rounding against the order (buyers pay the ceiling, sellers receive the floor):
+// it refuses (panics) to fill beyond the matchable amount; the open amount goes down by exactly amt; a buyer receives amt of
+// base coin and pays ceil(price*amt) quote, never more than its unspent offer coin and less than one quote unit above its
+// limit value; a seller pays amt and receives floor(price*amt); the returned quote difference is +paid / -received.
+//@ func FillOrder
+//@   property C05
+//@   let open0 = order.GetOpenAmount()
+//@   let paid0 = order.GetPaidOfferCoinAmount()
+//@   let recv0 = order.GetReceivedDemandCoinAmount()
+//@   let buy = order.GetDirection() == Buy
+//@   requires #order-shape: open0 >= 0 && order.GetOfferCoinAmount() >= paid0 && paid0 >= 0 && recv0 >= 0 && price > 0 && amt >= 0 && (order.GetDirection() == Buy || order.GetDirection() == Sell)
+//@   requires #sell-offer-is-amount: !buy ==> order.GetOfferCoinAmount() - paid0 >= open0
+//@   ensures #c05-open-down-by-amt: order.GetOpenAmount() == open0 - amt && order.GetOpenAmount() >= 0
+//@   ensures #c05-buy-fill: buy ==> order.GetReceivedDemandCoinAmount() == recv0 + amt && order.GetPaidOfferCoinAmount() == paid0 + trunc(decCeil(price * amt)) && result == trunc(decCeil(price * amt))
+//@   ensures #c05-sell-fill: !buy ==> order.GetPaidOfferCoinAmount() == paid0 + amt && order.GetReceivedDemandCoinAmount() == recv0 + trunc(price * amt) && result == 0 - trunc(price * amt)
+//@   ensures #c05-within-offer: order.GetPaidOfferCoinAmount() <= order.GetOfferCoinAmount()
+//@   ensures #c05-buy-price-within-one-unit: buy ==> (order.GetPaidOfferCoinAmount() - paid0) * ONE < price * amt + ONE
+//@   ensures #c05-sell-price-within-one-unit: !buy ==> (order.GetReceivedDemandCoinAmount() - recv0) * ONE > price * amt - ONE
+
+// One buyer fill and one seller fill of the same amount at the same price: the quote paid is never less than the quote
+// received, and the dust is less than one unit per pair of fills.
+//@ lemma fill_pair_dust(price, amt)
+//@   property C05
+//@   requires price > 0 && amt >= 0
+//@   ensures #c05-dust-nonneg: trunc(decCeil(price * amt)) - trunc(price * amt) >= 0
+//@   ensures #c05-dust-below-one: trunc(decCeil(price * amt)) - trunc(price * amt) <= 1
+
+// Accessors of the base order are plain field reads/writes (this justifies modelling amm.Order values as records of the
+// type every implementer embeds).
+//@ func (order *BaseOrder) GetOpenAmount
+//@   property C05
+//@   ensures #c05-accessor: result == order.OpenAmount
+//@ func (order *BaseOrder) GetPaidOfferCoinAmount
+//@   property C05
+//@   ensures #c05-accessor: result == order.PaidOfferCoinAmount
+//@ func (order *BaseOrder) GetReceivedDemandCoinAmount
+//@   property C05
+//@   ensures #c05-accessor: result == order.ReceivedDemandCoinAmount
+//@ func (order *BaseOrder) GetOfferCoinAmount
+//@   property C05
+//@   ensures #c05-accessor: result == order.OfferCoinAmount
+//@ func (order *BaseOrder) GetDirection
+//@   property C05
+//@   ensures #c05-accessor: result == order.Direction
+//@ func (order *BaseOrder) SetOpenAmount
+//@   property C05
+//@   let o0 = order
+//@   ensures #c05-setter: order.OpenAmount == amt && order.PaidOfferCoinAmount == old(order.PaidOfferCoinAmount) && order.ReceivedDemandCoinAmount == old(order.ReceivedDemandCoinAmount) && order.OfferCoinAmount == old(order.OfferCoinAmount) && order.Direction == old(order.Direction) && order.Amount == old(order.Amount)
+//@ func (order *BaseOrder) SetPaidOfferCoinAmount
+//@   property C05
+//@   ensures #c05-setter: order.PaidOfferCoinAmount == amt && order.OpenAmount == old(order.OpenAmount) && order.ReceivedDemandCoinAmount == old(order.ReceivedDemandCoinAmount) && order.OfferCoinAmount == old(order.OfferCoinAmount) && order.Direction == old(order.Direction)
+//@ func (order *BaseOrder) SetReceivedDemandCoinAmount
+//@   property C05
+//@   ensures #c05-setter: order.ReceivedDemandCoinAmount == amt && order.OpenAmount == old(order.OpenAmount) && order.PaidOfferCoinAmount == old(order.PaidOfferCoinAmount) && order.OfferCoinAmount == old(order.OfferCoinAmount) && order.Direction == old(order.Direction)
